@@ -53,6 +53,44 @@ theorem roundTripParents_closed (es : List (Bytes × List Bytes)) (i : Nat)
     simp [encodeParents, decodeParents, *]
   | _ :: _ :: _ :: _, h2, _ => simp at h2
 
+theorem parseExtraEdges_spec (oids : List Bytes) : ∀ (init : List Nat) (last : Nat) (junk : List Nat),
+    (∀ p ∈ init, p < oids.length ∧ p < LAST) → last < oids.length →
+    parseExtraEdges oids (init ++ [last + LAST] ++ junk) = (init ++ [last]).filterMap (oids[·]?) := by
+  intro init
+  induction init with
+  | nil =>
+    intro last junk _ hl
+    have h1 : last + LAST ≥ LAST := by omega
+    have h2 : last + LAST - LAST = last := by omega
+    simp [parseExtraEdges, h1, h2, hl]
+  | cons p ps ih =>
+    intro last junk hin hl
+    have hp := hin p (by simp)
+    have h1 : ¬ (p ≥ LAST) := by omega
+    simp only [List.cons_append, parseExtraEdges, h1, if_false]
+    have : oids[p]? = some oids[p] := by simp [hp.1]
+    rw [this]
+    simp only [List.filterMap_cons, this]
+    rw [← ih last junk (fun q hq => hin q (by simp [hq])) hl]
+
+/-- the reader on C git's encoding of a commit with three or more parents: first parent in slot 1, slot 2 =
+`GRAPH_EXTRA_EDGES_NEEDED | k`, the remaining parents in the EDGE chunk from word `k`, the last one flagged -/
+theorem decodeParents_edges (oids : List Bytes) (pre init junk : List Nat) (p1 last : Nat)
+    (h1 : p1 < oids.length) (hn : oids.length < MISSING)
+    (hin : ∀ p ∈ init, p < oids.length ∧ p < LAST) (hl : last < oids.length) :
+    decodeParents oids (some (pre ++ (init ++ [last + LAST] ++ junk))) p1 (EXTRA + pre.length) =
+      .ok ((p1 :: (init ++ [last])).filterMap (oids[·]?)) := by
+  have hME : MISSING < EXTRA := by decide
+  have a : p1 < MISSING := by omega
+  have b : ¬ (EXTRA + pre.length < MISSING) := by omega
+  have c : EXTRA + pre.length ≥ EXTRA := by omega
+  have d : EXTRA + pre.length - EXTRA = pre.length := by omega
+  have e : oids[p1]? = some oids[p1] := by simp [h1]
+  unfold decodeParents
+  simp only [a, if_true, e, b, if_false, c, d, List.drop_left, List.filterMap_cons]
+  rw [parseExtraEdges_spec oids init last junk hin hl]
+  rfl
+
 end Dulwich.CommitGraphFmt
 
 namespace Dulwich.Ewah
@@ -283,6 +321,176 @@ theorem decodeWordsAux_bounded (M : Nat) : ∀ (fuel cur : Nat) (cw ws : List Na
             have := ih _ _ _ h1 ht
             simp only [List.length_append, List.length_replicate]
             omega
+
+end Dulwich.Ewah
+
+namespace Dulwich.Ewah
+open Dulwich
+
+/-! ### EWAH: byte level and bit level -/
+
+theorem beBytes_length : ∀ (k v : Nat), (beBytes k v).length = k := by
+  intro k
+  induction k with
+  | zero => intro v; rfl
+  | succ k ih => intro v; simp [beBytes, ih]
+
+theorem beVal_append_single (a : Bytes) (b : UInt8) : beVal (a ++ [b]) = beVal a * 256 + b.toNat := by
+  simp [beVal, List.foldl_append]
+
+theorem beVal_beBytes : ∀ (k v : Nat), v < 256 ^ k → beVal (beBytes k v) = v := by
+  intro k
+  induction k with
+  | zero => intro v h; simp at h; subst h; rfl
+  | succ k ih =>
+    intro v h
+    have h1 : v / 256 < 256 ^ k := by
+      rw [Nat.pow_succ] at h
+      exact Nat.div_lt_of_lt_mul (by omega)
+    rw [beBytes, beVal_append_single, ih _ h1]
+    have : (UInt8.ofNat (v % 256)).toNat = v % 256 := by
+      rw [UInt8.toNat_ofNat']; omega
+    rw [this]; omega
+
+theorem readWords_flatMap : ∀ (cw : List Nat) (rest : Bytes), (∀ w ∈ cw, w < 2 ^ 64) →
+    readWords cw.length (cw.flatMap (beBytes 8) ++ rest) = cw := by
+  intro cw
+  induction cw with
+  | nil => intro rest _; rfl
+  | cons c cs ih =>
+    intro rest h
+    have hc : c < 256 ^ 8 := by have := h c (by simp); norm_num at this ⊢; exact this
+    have hl : (beBytes 8 c).length = 8 := beBytes_length 8 c
+    simp only [List.length_cons, List.flatMap_cons, List.append_assoc, readWords]
+    have h8 : ¬ ((beBytes 8 c ++ (cs.flatMap (beBytes 8) ++ rest)).length < 8) := by
+      simp [hl]
+    rw [if_neg h8, List.take_left' hl, List.drop_left' hl, beVal_beBytes 8 c hc,
+      ih rest (fun w hw => h w (by simp [hw]))]
+
+theorem decode_serialize (bc : Nat) (cw : List Nat) (bytes : Bytes) (h : serialize bc cw = .ok bytes) :
+    decode bytes = (match decodeWords ((bc + 63) / 64) cw with
+      | .ok ws => .ok (bc, ws)
+      | .error e => .error e) := by
+  unfold serialize at h
+  by_cases hb : bc ≥ 2 ^ 32 ∨ cw.length ≥ 2 ^ 32 ∨ cw.any (· ≥ 2 ^ 64) = true
+  · rw [if_pos hb] at h; cases h
+  · rw [if_neg hb] at h
+    simp only [Except.ok.injEq] at h
+    have hbc : bc < 256 ^ 4 := by norm_num; omega
+    have hlen : cw.length < 256 ^ 4 := by norm_num; omega
+    have hall : ∀ w ∈ cw, w < 2 ^ 64 := by
+      intro w hw
+      have : ¬ (cw.any (· ≥ 2 ^ 64) = true) := fun h' => hb (Or.inr (Or.inr h'))
+      simp only [List.any_eq_true, decide_eq_true_eq, not_exists, not_and] at this
+      have := this w hw
+      omega
+    have l4a : (beBytes 4 bc).length = 4 := beBytes_length 4 bc
+    have l4b : (beBytes 4 cw.length).length = 4 := beBytes_length 4 _
+    subst h
+    unfold decode
+    have h8 : ¬ ((beBytes 4 bc ++ beBytes 4 cw.length ++ cw.flatMap (beBytes 8) ++ beBytes 4 0).length < 8) := by
+      simp only [List.length_append, l4a, l4b]; omega
+    rw [if_neg h8]
+    simp only [List.append_assoc]
+    rw [List.take_left' l4a, List.drop_left' l4a, List.take_left' l4b, beVal_beBytes 4 bc hbc,
+      beVal_beBytes 4 _ hlen]
+    have hd : List.drop 8 (beBytes 4 bc ++ (beBytes 4 cw.length ++ (cw.flatMap (beBytes 8) ++ beBytes 4 0)))
+        = cw.flatMap (beBytes 8) ++ beBytes 4 0 := by
+      rw [← List.append_assoc]
+      exact List.drop_left' (by simp [l4a, l4b])
+    rw [hd, readWords_flatMap cw _ hall]
+    try rfl
+
+theorem wordVal_bit : ∀ (l : List Bool) (j : Nat),
+    wordVal l / 2 ^ j % 2 = if l.getD j false then 1 else 0 := by
+  intro l
+  induction l with
+  | nil => intro j; simp [wordVal]
+  | cons b bs ih =>
+    intro j
+    cases j with
+    | zero => cases b <;> simp [wordVal]
+    | succ j =>
+      have : ((if b = true then 1 else 0) + 2 * wordVal bs) / 2 ^ (j + 1) = wordVal bs / 2 ^ j := by
+        have e : 2 ^ (j + 1) = 2 * 2 ^ j := by rw [Nat.pow_succ, Nat.mul_comm]
+        have e2 : ((if b = true then 1 else 0) + 2 * wordVal bs) / 2 = wordVal bs := by
+          cases b
+          · simp
+          · simp; omega
+        rw [e, ← Nat.div_div_eq_div_mul, e2]
+      simp only [wordVal, this, ih j, List.getD_cons_succ]
+
+theorem bitCount_spec : ∀ (bits : List Bool) (p : Nat), bitCount bits ≤ p → bits.getD p false = false := by
+  intro bits
+  induction bits with
+  | nil => intro p _; rfl
+  | cons b bs ih =>
+    intro p h
+    simp only [bitCount] at h
+    cases p with
+    | zero =>
+      by_cases hn : bitCount bs = 0
+      · rw [if_pos hn] at h
+        cases b <;> simp_all
+      · rw [if_neg hn] at h; omega
+    | succ p =>
+      simp only [List.getD_cons_succ]
+      apply ih
+      by_cases hn : bitCount bs = 0
+      · omega
+      · rw [if_neg hn] at h; omega
+
+/-- the dense words `encode` builds hold exactly the bits of the bitmap -/
+theorem wordsOfBits_bitAt (bits : List Bool) (p : Nat) : bitAt (wordsOfBits bits) p = bits.getD p false := by
+  unfold bitAt wordsOfBits
+  by_cases hp : p / 64 < (bitCount bits + 63) / 64
+  · have : ((List.range ((bitCount bits + 63) / 64)).map
+        (fun i => wordVal ((bits.drop (64 * i)).take 64))).getD (p / 64) 0
+        = wordVal ((bits.drop (64 * (p / 64))).take 64) := by
+      simp [List.getD_eq_getElem?_getD, List.getElem?_map, List.getElem?_range hp]
+    rw [this, wordVal_bit]
+    have hj : p % 64 < 64 := Nat.mod_lt _ (by omega)
+    have : ((bits.drop (64 * (p / 64))).take 64).getD (p % 64) false = bits.getD p false := by
+      simp only [List.getD_eq_getElem?_getD, List.getElem?_take, hj, if_true, List.getElem?_drop]
+      congr 2
+      omega
+    rw [this]
+    cases bits.getD p false <;> simp
+  · have : ((List.range ((bitCount bits + 63) / 64)).map
+        (fun i => wordVal ((bits.drop (64 * i)).take 64))).getD (p / 64) 0 = 0 := by
+      simp only [List.getD_eq_getElem?_getD, List.getElem?_map]
+      rw [List.getElem?_eq_none (by simp; omega)]
+      rfl
+    rw [this, bitCount_spec bits p (by omega)]
+    simp
+
+theorem wordsOfBits_length (bits : List Bool) : (wordsOfBits bits).length = (bitCount bits + 63) / 64 := by
+  simp [wordsOfBits]
+
+/-- `EWAHBitmap(b.encode())`: declared size and dense words are those of `b` -/
+theorem decode_encode (bits : List Bool) (bytes : Bytes) (h : encode bits = .ok bytes) :
+    decode bytes = .ok (bitCount bits, wordsOfBits bits) := by
+  unfold encode at h
+  by_cases h0 : bitCount bits = 0
+  · rw [if_pos h0] at h
+    simp only [Except.ok.injEq] at h
+    subst h
+    have : wordsOfBits bits = [] := by simp [wordsOfBits, h0]
+    rw [this, h0]
+    decide
+  · rw [if_neg h0] at h
+    rw [decode_serialize _ _ _ h]
+    have h32 : bitCount bits < 2 ^ 32 := by
+      unfold serialize at h
+      by_cases hb : bitCount bits ≥ 2 ^ 32 ∨ (encodeWords (wordsOfBits bits)).length ≥ 2 ^ 32 ∨
+          (encodeWords (wordsOfBits bits)).any (· ≥ 2 ^ 64) = true
+      · rw [if_pos hb] at h; cases h
+      · omega
+    have hl := wordsOfBits_length bits
+    have hrt : decodeWords ((bitCount bits + 63) / 64) (encodeWords (wordsOfBits bits)) = .ok (wordsOfBits bits) := by
+      unfold decodeWords encodeWords
+      exact encode_decode_aux maxLit _ _ _ 0 _ (Nat.le_refl _) (Nat.le_refl _) (by omega) (by omega)
+    rw [hrt]
 
 end Dulwich.Ewah
 
